@@ -21,7 +21,7 @@ are each decided on the code of the current tree, for ALL paths:
       file_name() = segments().next_back() filtered by non-emptiness; segment_count() = segments().count(); the URI and IRI wrappers are twins.
   parent() (Engine S, mirror mode, spec parent-text): None for "", "/" and a single relative segment, the root for "/x", "/./" for "//x", otherwise the
       text before the LAST "/"; parent_or_empty() = parent() or the empty path of the same kind.
-Not decided: directory (covered by C16), and that joining the pieces reproduces the path text (follows from Lemma F/B spans tiling the path, not mechanised)."""
+directory() is decided by the rules of C16 (run here as well). Not decided: that joining the pieces reproduces the path text (follows from Lemma F/B spans tiling the path, not mechanised)."""
 import re
 
 from .. import facts, mir, terms, segscan, sibling
@@ -375,7 +375,13 @@ def main(run):
                     vals[side] = st['rv']['op'].get('val')
         okk = vals == {'true': 1, 'false': 0}
     if not okk:
-        run.violation('wiring|first_segment_offset', 'PathImpl::first_segment_offset is not `if self.is_absolute() { 1 } else { 0 }`')
+        # the same function spelled usize::from(self.is_absolute()): the conversion of a bool is 1 for true, 0 for false
+        fb_ = P.body(PI + 'first_segment_offset')
+        ft = terms.Terms(fb_).ret() if fb_ else None
+        okk = bool(ft and ft[0] == 'call' and re.search(r'From<bool> for usize>::from$', ft[1]) and len(ft[2]) == 1 and ft[2][0][0] == 'call'
+                   and ft[2][0][1].endswith('::is_absolute') and ft[2][0][2] and ft[2][0][2][0][:2] == ('arg', 1))
+    if not okk:
+        run.violation('wiring|first_segment_offset', 'PathImpl::first_segment_offset is not 1 exactly when self.is_absolute(), else 0')
     # is_absolute / is_empty: decided semantically (Engine S, all byte strings): true exactly on texts starting with "/" resp. on "" and "/"
     from .. import predscan, lang
     from ..aut import NFA as _NFA, determinize as _det
@@ -444,6 +450,9 @@ def main(run):
     b = P.body(PI + 'file_name')
     t = terms.Terms(b).ret() if b else None
     okk = bool(t and t[0] == 'call' and t[1].endswith('Option::<T>::filter') and t[2][0][0] == 'call' and t[2][0][1] == NEXT_BACK and t[2][0][2][0][0] == 'call' and t[2][0][2][0][1] == PI + 'segments')
+    # … or last() filtered the same way: last() is decided above to be None on an empty path and otherwise the segment of the backward step
+    # from len + 1, which is what next_back() of a fresh segments() returns (wiring rule of segments(): back_offset = len + 1)
+    okk = okk or bool(t and t[0] == 'call' and t[1].endswith('Option::<T>::filter') and t[2][0][0] == 'call' and t[2][0][1] == PI + 'last' and t[2][0][2] and t[2][0][2][0][:2] == ('arg', 1))
     cb = P.body(PI + 'file_name::{closure#0}')
     if cb is not None:
         ct = terms.Terms(cb).ret()
@@ -451,7 +460,7 @@ def main(run):
     else:
         okk = False
     if not okk:
-        run.violation('derived|file_name', 'file_name() is not segments().next_back().filter(|s| !s.is_empty())')
+        run.violation('derived|file_name', 'file_name() is not the last segment (segments().next_back() or last()) filtered by non-emptiness')
     for fam in ('uri', 'iri'):
         fn = f'{fam}::path::Path::segment_count'
         b = P.body(fn)
@@ -470,6 +479,10 @@ def main(run):
         if not r['findings']:
             run.sample({'lemma': r['key'], 'function': r['fn'], 'statement': r['what'], 'abstract_states': r['stats'].get('configs'), 'returns_checked': r['stats'].get('returns'), 'verdict': 'holds'})
     run.floor('parent_obligations', 2, 'parent / parent_or_empty')
+    # directory(): the text up to and including the last "/", the (relative) EMPTY path when there is none — with file_name() it splits the path
+    from .c16 import directory_rules
+    directory_rules(run, P)
+    run.floor('directory_paths', 3, 'symbolic paths of PathImpl::directory')
     from .. import fwd
     fwd.normalized_iter_forwarders(run, P)
     npairs = sibling.check(run, P, 'C12', only=lambda n: re.search(r'path::(Path|PathBuf)::(segments|segment_count|first|last|file_name|is_empty|is_absolute|is_relative)$', n) is not None)
